@@ -152,7 +152,13 @@ func (m *Module) Setup(w *engine.World) {
 		w.NeedDenom(d, per)
 	}
 	w.NeedDenom(Std, per)
+	// ordinary bank denoms that merely look like liquidity denoms ("<word>-<n>")
+	for _, d := range lookalikes {
+		w.NeedDenom(d, new(big.Int).Lsh(big.NewInt(1), 80))
+	}
 }
+
+var lookalikes = []string{"kitty-1", "kitty-2", "kitty-3", "lpx-1"}
 
 func dec(v *big.Int) sdkmath.LegacyDec { return sdkmath.LegacyNewDecFromBigIntWithPrec(v, 18) }
 
@@ -183,6 +189,7 @@ type addArgs struct {
 }
 type removeArgs struct {
 	Denom    string `json:"denom"`
+	RawLpt   string `json:"raw_lpt,omitempty"` // name this bank denom instead of the pool's liquidity denom
 	Liq      string `json:"liq"`
 	MinToken string `json:"min_token"`
 	MinStd   string `json:"min_std"`
@@ -356,8 +363,13 @@ func (m *Module) Gen(w *engine.World, r *engine.Rand) *engine.TxPlan {
 				}
 			}
 		}
-		return engine.Tx1(engine.NewOp(Name, "remove", actor, removeArgs{Denom: denom, Liq: liq.String(),
-			MinToken: minT.String(), MinStd: minS.String(), Deadline: m.deadline(w, r)}))
+		ra := removeArgs{Denom: denom, Liq: liq.String(), MinToken: minT.String(), MinStd: minS.String(), Deadline: m.deadline(w, r)}
+		if r.Bool(0.04) {
+			ra.RawLpt = lookalikes[r.Intn(len(lookalikes))]
+			ra.Liq = amount(r, big.NewInt(1000), 20).String()
+			ra.MinToken, ra.MinStd = "0", "0"
+		}
+		return engine.Tx1(engine.NewOp(Name, "remove", actor, ra))
 	case 2:
 		if p == nil {
 			return nil
@@ -565,6 +577,10 @@ func (m *Module) Build(w *engine.World, op *engine.Op) (sdk.Msg, error) {
 	case "remove":
 		var a removeArgs
 		op.Decode(&a)
+		if a.RawLpt != "" {
+			return &cstypes.MsgRemoveLiquidity{WithdrawLiquidity: coin(a.RawLpt, a.Liq), MinToken: engine.Int(bigOf(a.MinToken)),
+				MinStandardAmt: engine.Int(bigOf(a.MinStd)), Deadline: a.Deadline, Sender: sender}, nil
+		}
 		p := m.pools[a.Denom]
 		if p == nil {
 			return nil, fmt.Errorf("pool of %s unknown", a.Denom)
@@ -828,6 +844,12 @@ func (m *Module) checkAdd(w *engine.World, op *engine.Op, tx *engine.TxRecord, a
 func (m *Module) checkRemove(w *engine.World, op *engine.Op, tx *engine.TxRecord, a removeArgs) {
 	sender := w.A(op.Actor).Addr.String()
 	sh := tx.Sheet
+	if a.RawLpt != "" {
+		// "liquidity tokens are ... burned only against withdrawals ... no other coin's total
+		// supply changes": a coin that is not a pool's liquidity token buys no withdrawal
+		w.Violate("C02", "remove/foreign-denom-accepted", "remove-liquidity naming %s%s, which is not the liquidity token of any pool, was accepted; sheet: %s", a.Liq, a.RawLpt, sh)
+		return
+	}
 	p := m.pools[a.Denom]
 	m.deadlineOK(w, tx, "remove", a.Deadline)
 	var resp cstypes.MsgRemoveLiquidityResponse
